@@ -212,11 +212,15 @@ def exhaustive_recipes(rng, n_layers: int = 2):
         di += 1
 
 
-def random_recipe(rng, conv: str, tier: str):
+def random_recipe(rng, conv: str, tier: str, deep: bool = False):
     big = tier == 'thorough'
     ny, nx = (3, 4) if (big and rng.random() < 0.5) else (2, 3)
-    r = D.random_dataset(rng, conv, ny=ny, nx=nx, levels=(2, 3, 4) if big else (2, 3),
-                         positions=rng.choice(['all', 'shuffled-all']), kinds_per_axis=2,
+    levels = (2, 3, 4) if big else (2, 3)
+    if deep:
+        # water columns far deeper than any small counter type holds (127, 255 layers and beyond)
+        levels = (129, 150, 257, 300)
+    r = D.random_dataset(rng, conv, ny=ny, nx=nx, levels=levels,
+                         positions='random' if deep else rng.choice(['all', 'shuffled-all']), kinds_per_axis=1 if deep else 2,
                          bounds=rng.choice([None, None, 'var']), shared_dim=rng.random() < 0.15)
     spec = r['depth']
     base = G.build(r['base'])
@@ -404,7 +408,7 @@ def run(ctx) -> None:
     # (b) random datasets
     for i in range(ctx.budget(100, 800)):
         conv = D.CONVS[i % 5]
-        recipe = random_recipe(rng, conv, ctx.tier)
+        recipe = random_recipe(rng, conv, ctx.tier, deep=(i % 10 == 7))
         db = D.build(recipe)
         names = D.discovery(db)
         got = [str(c.name) for c in db.convention().depth_coordinates]
